@@ -111,6 +111,12 @@ FIXED = [((2, 3), 0b111111), ((3, 2), 0b100110), ((1, 1), 1), ((1, 3), 0b101), (
 SINGLES = [(1, 3), (3, 1)]
 
 
+def fixed_masks(tier):
+    """spine of the B products; the quick tier cuts this factor from 7 to 5 tables (general 2x3,
+    1x1, single observation, single sample, all-zero)"""
+    return FIXED if tier != 'quick' else [FIXED[0], FIXED[2], FIXED[3], FIXED[4], FIXED[5]]
+
+
 def tier_shapes(tier):
     sh = list(D.shapes(tier))
     for s in SINGLES:                       # single-observation / single-sample in both tiers
@@ -140,14 +146,14 @@ def cases(tier, seed):
                             'obs_md': md, 'export': md != 'none',
                             'writers': WRITERS, 'readers': READERS})
     lays = ['csr', 'unsorted', 'csc'] if tier == 'quick' else D.LAYOUTS[:-1]
-    for shape, mask in FIXED:
+    for shape, mask in fixed_masks(tier):
         for so, ss in itertools.product(styles, repeat=2):
             for md in ('none', 'taxonomy'):
                 out.append({'prod': 'B-ids', 'shape': list(shape), 'mask': mask, 'rot': rot,
                             'obs_style': so, 'samp_style': ss, 'obs_md': md, 'export': md != 'none',
                             'layout': lays[len(out) % len(lays)],
                             'writers': WRITERS, 'readers': READERS})
-    for shape, mask in FIXED:
+    for shape, mask in fixed_masks(tier):
         for md in ('taxonomy', 'taxonomy_ragged', 'text', 'two'):
             for export in (True, False):
                 for hv in ((None, 'Consensus Lineage') if export else (None,)):
@@ -704,7 +710,7 @@ def run(run):
         'metadata': {'A': ['none', 'taxonomy exported'], 'CV': ['none', 'taxonomy', 'taxonomy_ragged'],
                      'B-md': 'taxonomy, taxonomy_ragged (sc formatter), text, two (naive formatter) x '
                              'exported? x column name {key, "Consensus Lineage"} x sample metadata {none,text}'},
-        'fixed_masks_for_B': [[list(s), m] for s, m in FIXED],
+        'fixed_masks_for_B': [[list(s), m] for s, m in fixed_masks(run.tier)],
         'writers': {'A,V': CHEAP_WRITERS, 'CV,B-ids,B-md': WRITERS},
         'readers': {'A,V': CHEAP_READERS, 'CV,B-ids,B-md': READERS},
         'writer_x_reader': 'every reader is run on every *distinct* text of a table (texts of two writers '
